@@ -58,3 +58,18 @@ package crypto
 //@ iface func (pk PrivateKey) RawString() (r string)
 //@   mode value
 //@   ensures true
+
+// C19: two multisignature keys are equal exactly when the other key is a multisignature key too, both list the SAME NUMBER
+// of keys and the keys are pairwise equal - a key whose list is a proper prefix of another's is a different key
+// (getIndex / AddSignature file a signature under the position of the key it is Equal to: seed C19e)
+//@ iface func (pk PublicKey) Equals(other crypto.PubKey) (r bool)
+//@   mode heap
+//@   ensures r == pk_equal_s(pk, other)
+//@ func (pms PublicKeyMultiSignature) Equals(other crypto.PubKey) (r bool)
+//@   props C19
+//@   requires forall k int :: 0 <= k && k < len(pms.PublicKeys) ==> pms.PublicKeys[k] != nil
+//@   loop 1 invariant 0 <= i && i <= len(pms.PublicKeys) && dyntype(other) == typeid("crypto.PublicKeyMultiSignature") && len(pms.PublicKeys) == len(otherKey.PublicKeys) && otherKey == unbox(other, "crypto.PublicKeyMultiSignature")
+//@   loop 1 invariant forall j int :: 0 <= j && j < i ==> pk_equal_s(pms.PublicKeys[j], otherKey.PublicKeys[j])
+//@   loop 1 frame
+//@   loop 1 decreases len(pms.PublicKeys) - i
+//@   ensures [equal] r == (dyntype(other) == typeid("crypto.PublicKeyMultiSignature") && len(pms.PublicKeys) == len(unbox(other, "crypto.PublicKeyMultiSignature").PublicKeys) && (forall j int :: 0 <= j && j < len(pms.PublicKeys) ==> pk_equal_s(pms.PublicKeys[j], unbox(other, "crypto.PublicKeyMultiSignature").PublicKeys[j])))
